@@ -19,9 +19,10 @@ import IbcVerif.Lemmas.Ics20Lifecycle
 namespace IbcVerif.C32
 open IbcVerif IbcVerif.Xfer IbcVerif.Ics20
 
-/-- the refunding callbacks for packet `p`: timeout, v1 error acknowledgement, v2 sentinel -/
+/-- the refunding callbacks for packet `p`: timeout (by `MsgTimeout` or `MsgTimeoutOnClose`), v1 error
+    acknowledgement, v2 sentinel -/
 def IsRefundOf (p : Packet) : Op → Prop
-  | .timeout q => q = p
+  | .timeout q _ => q = p
   | .ack q a => q = p ∧ (a = .error ∨ a = .sentinel)
   | _ => False
 
@@ -73,9 +74,9 @@ theorem refund_restores (cfg : Config) (w w₁ w₂ w₃ : World) (c : Nat) (sig
   have href : ∃ ch3, refundPacketTokens cfg c (w₂.chains c) p.srcPort p.srcChan p.data = .ok ch3 ∧
       w₃.chains = (w₂.setChain c ch3).chains := by
     cases op with
-    | timeout q =>
+    | timeout q oc =>
       simp only [IsRefundOf] at hop; subst hop
-      rcases step_timeout_cases cfg w₂ q with ⟨ch3, hto, hstep⟩ | ⟨_, hne⟩
+      rcases step_timeout_cases cfg w₂ q oc with ⟨ch3, hto, hstep⟩ | ⟨_, hne⟩
       · rw [hstep] at hrefund
         injection hrefund with h1 _
         subst h1
@@ -158,9 +159,9 @@ theorem refund_credits_sender (cfg : Config) (w₂ w₃ : World) (p : Packet) (o
   have href : ∃ ch3, refundPacketTokens cfg p.srcChain (w₂.chains p.srcChain) p.srcPort p.srcChan p.data = .ok ch3 ∧
       w₃.chains = (w₂.setChain p.srcChain ch3).chains := by
     cases op with
-    | timeout q =>
+    | timeout q oc =>
       simp only [IsRefundOf] at hop; subst hop
-      rcases step_timeout_cases cfg w₂ q with ⟨ch3, hto, hstep⟩ | ⟨_, hne⟩
+      rcases step_timeout_cases cfg w₂ q oc with ⟨ch3, hto, hstep⟩ | ⟨_, hne⟩
       · rw [hstep] at hrefund
         injection hrefund with h1 _
         subst h1
@@ -191,6 +192,14 @@ theorem refund_credits_sender (cfg : Config) (w₂ w₃ : World) (p : Packet) (o
   rcases hb with ⟨_, hb3, _, _⟩ | ⟨_, _, _, hb3, _, _⟩
   · rw [hb3]; simp
   · rw [hb3]; simp [moveBal, hne]
+
+/-- **Timeout-on-close is the same refund.**  `MsgTimeoutOnClose` (v1) reaches the very same
+    `OnTimeoutPacket` callback as `MsgTimeout`; only core IBC's admission differs (`Guard`: the packet was
+    never received — C03/C14 — and has no other terminal outcome).  So `refund_restores`,
+    `refund_credits_sender` and `refund_at_most_once` cover it (`IsRefundOf` and `refundCount` do not
+    look at the `onClose` flag). -/
+theorem timeout_on_close_same_callback (cfg : Config) (w : World) (p : Packet) :
+    step cfg w (.timeout p true) = step cfg w (.timeout p false) := rfl
 
 /-- **Exactly once.**  Along every history that respects the packet lifecycle, at most one refunding
     callback completes for any packet. -/
@@ -235,9 +244,9 @@ theorem v1_ack_decoding (cfg : Config) (c : Nat) (ch : Chain) (p : Packet) (hv1 
 
 /-- a failed refund (blocked or undecodable sender, escrow short) fails the whole transaction: the
     world is unchanged and the packet is not marked resolved, so the refund can be retried -/
-theorem failed_refund_changes_nothing (cfg : Config) (w : World) (p : Packet)
-    (h : (step cfg w (.timeout p)).2 ≠ .ok) : (step cfg w (.timeout p)).1 = w := by
-  rcases step_timeout_cases cfg w p with ⟨ch', _, hstep⟩ | ⟨hsame, _⟩
+theorem failed_refund_changes_nothing (cfg : Config) (w : World) (p : Packet) (oc : Bool)
+    (h : (step cfg w (.timeout p oc)).2 ≠ .ok) : (step cfg w (.timeout p oc)).1 = w := by
+  rcases step_timeout_cases cfg w p oc with ⟨ch', _, hstep⟩ | ⟨hsame, _⟩
   · rw [hstep] at h; exact absurd rfl h
   · exact hsame
 
@@ -257,7 +266,7 @@ example :
     let p : Packet := ⟨0, "transfer".toList, "channel-0".toList, 1, "transfer".toList, "channel-1".toList, 1, false,
       ⟨"uatom".toList, 5, "u".toList, "v".toList, []⟩⟩
     let w₁ := (step cfg w (.transfer 0 "u".toList true m none 1)).1
-    let w₃ := (step cfg w₁ (.timeout p)).1
+    let w₃ := (step cfg w₁ (.timeout p true)).1
     (w₁.chains 0).bank.bal "u".toList "uatom".toList = 5 ∧
     (w₃.chains 0).bank.bal "u".toList "uatom".toList = 10 ∧
     (w₃.chains 0).bank.bal ("esc:".toList ++ "transfer".toList ++ "channel-0".toList) "uatom".toList = 0 ∧
